@@ -412,7 +412,8 @@ def _masked_assign(arr, mask, value):
     base = _plain(arr)
     if mask.shape != base.shape[:mask.ndim]:
         raise IndexError("boolean index did not match")
-    if not isinstance(value, _np.ndarray) or value.ndim == 0:
+    use_ite = C.ctx().ex.opts.get('mask_assign', 'fork') == 'ite'
+    if use_ite and (not isinstance(value, _np.ndarray) or value.ndim == 0):
         v = value[()] if isinstance(value, _np.ndarray) else value
         if base.ndim == mask.ndim:
             for pos in _np.ndindex(*mask.shape):
@@ -805,8 +806,28 @@ def interp(x, xp, fp, left=None, right=None, period=None):
 # constructors and helpers
 
 
+def _dt(dtype):
+    """Map the shim's float64/int32 callables back to numpy dtypes."""
+    if dtype is float64:
+        return _np.float64
+    if dtype is int32:
+        return _np.int32
+    return dtype
+
+
+def _is_float_dt(dtype):
+    dtype = _dt(dtype)
+    if dtype is None or dtype is float:
+        return True
+    try:
+        return _np.dtype(dtype).kind == 'f'
+    except TypeError:
+        return False
+
+
 def zeros(shape, dtype=float, **kw):
-    if dtype in (float, _np.float64, _np.float32, 'float32', 'float64', None) and C.has_ctx():
+    dtype = _dt(dtype)
+    if _is_float_dt(dtype) and C.has_ctx():
         r = _np.empty(shape, dtype=object)
         r.fill(0.0)
         return r.view(SymArray)
@@ -814,7 +835,8 @@ def zeros(shape, dtype=float, **kw):
 
 
 def ones(shape, dtype=float, **kw):
-    if dtype in (float, _np.float64, None) and C.has_ctx():
+    dtype = _dt(dtype)
+    if _is_float_dt(dtype) and C.has_ctx():
         r = _np.empty(shape, dtype=object)
         r.fill(1.0)
         return r.view(SymArray)
@@ -822,18 +844,20 @@ def ones(shape, dtype=float, **kw):
 
 
 def zeros_like(a, dtype=None, **kw):
+    dtype = _dt(dtype)
     if isinstance(a, _np.ndarray) and (a.dtype == object or a.dtype.kind == 'f') and dtype is None:
         return zeros(a.shape)
     return _np.zeros_like(a, dtype=dtype, **kw)
 
 
 def array(obj, dtype=None, copy=True, **kw):
-    if isinstance(obj, _np.ndarray) and obj.dtype == object and dtype in (None, float, _np.float64, object):
+    dtype = _dt(dtype)
+    if isinstance(obj, _np.ndarray) and obj.dtype == object and (dtype is object or _is_float_dt(dtype)):
         r = _plain(obj).copy() if copy else _plain(obj)
         u = _unit_of(obj)
         return _requant(r.view(SymArray), u)
     if isinstance(obj, (list, tuple)) and _deep_has_sym(obj):
-        if dtype not in (None, float, _np.float64, object, int):
+        if not (dtype in (object, int) or _is_float_dt(dtype)):
             raise Inconclusive("np.array(symbolic, dtype=%r)" % (dtype,))
         return finish(_np.array(_deep_plain(obj), dtype=object))
     if is_sym(obj):
@@ -864,9 +888,10 @@ def asarray(obj, dtype=None, **kw):
 
 
 def astype(a, dtype):
+    dtype = _dt(dtype)
     if dtype in (object,):
         return a
-    if dtype in (float, _np.float64, _np.float32, 'float32', 'float64') or (isinstance(dtype, _np.dtype) and dtype.kind == 'f'):
+    if _is_float_dt(dtype):
         return a
     if dtype in (int, _np.int32, _np.int64) or dtype is bool:
         if not _has_sym(a):
